@@ -17,6 +17,12 @@ Norm(x) == CASE x.t = "a" -> [t |-> "a", el |-> [i \in 1..Len(x.el) |-> Norm(x.e
              [] x.t = "..." -> [t |-> "...", v |-> [i \in 1..Len(x.v) |-> Norm(x.v[i])]]
              [] x.t \in {"f", "d"} -> [t |-> x.t, dy |-> x.dy]
              [] OTHER -> [t |-> x.t, v |-> x.v]
+\* expected vs scanned; "any" in the expectation stands for a value the manual does not determine
+RECURSIVE Match(_, _)
+Match(e, g) == CASE e.t = "any" -> TRUE
+                 [] e.t = "a" -> g.t = "a" /\ Len(e.el) = Len(g.el) /\ \A i \in 1..Len(e.el) : Match(e.el[i], g.el[i])
+                 [] e.t = "..." -> g.t = "..." /\ Len(e.v) = Len(g.v) /\ \A i \in 1..Len(e.v) : Match(e.v[i], g.v[i])
+                 [] OTHER -> e = g
 Fails(r) ==
   IF r.sig # 0 THEN {"crash_or_hang"}
   ELSE LET n == Len(r.in.text)
@@ -27,7 +33,7 @@ Fails(r) ==
        [] k = "checker_rejects" -> r.count > 0
        [] k = "scanner_writes_more_than_counted" -> r.extra_cells = 0
        [] k = "not_all_consumed" -> r.consumed = n
-       [] k = "values_differ" -> got = exp
+       [] k = "values_differ" -> Len(got) = Len(exp) /\ \A i \in 1..Len(exp) : Match(exp[i], got[i])
        [] k = "reprint_differs" -> r.again_equal }
 Judge == l < 0 \/ LET f == Fails(Log[l]) IN f = {} \/ PrintT(<<"REJECT", l, f>>)
 =============================================================================
